@@ -110,6 +110,10 @@ func (app *App) handleAdminMessage(msg []byte) ([]byte, error) {
 			switch cmd.Verb {
 			case "add":
 				var rule rwc.Rule
+				if cmd.Rule == nil {
+					err = errBadCommand
+					break
+				}
 				err = json.Unmarshal(*cmd.Rule, &rule)
 				if err != nil {
 					log.WithField("rule", *cmd.Rule).Errorf("error adding destination because json error %s", err.Error())
@@ -151,6 +155,10 @@ func (app *App) handleAdminMessage(msg []byte) ([]byte, error) {
 			switch cmd.Verb {
 			case "add":
 				var rule agg.Rule
+				if cmd.Rule == nil {
+					err = errBadCommand
+					break
+				}
 				err = json.Unmarshal(*cmd.Rule, &rule)
 				if err != nil {
 					log.WithField("rule", *cmd.Rule).Errorf("error adding stream because json error %s", err.Error())
